@@ -311,7 +311,7 @@ func regexToSMT(pat string) (string, error) {
 	if err != nil {
 		return "", err
 	}
-	re = re.Simplify()
+	// no Simplify(): it unrolls bounded repetitions x{m,n} into nested options, which the solvers handle far worse than re.loop
 	// we require the pattern to be anchored at both ends (MatchString semantics are "contains" otherwise)
 	s, err := reNode(re)
 	if err != nil {
